@@ -52,6 +52,11 @@ def description(rng):
         verts = [(G.exact(x), G.exact(y)) for x, y in spec["v"]]
         segs = [tuple([verts[i], verts[(i + 1) % len(verts)]]) for i in range(len(verts))]
         return segs, num, 1
+    if r > 0.9:
+        # two-segment closed curves: half disk / lens
+        spec, _ = G.random_lens(rng, center, size, cw=cw)
+        segs = [tuple((G.exact(x), G.exact(y)) for x, y in seg) for seg in spec["segs"]]
+        return segs, "float", None
     degree = rng.choice([2, 3])
     mixed = r > 0.8
     raw = G.blob_segments(rng, rng.randint(3, 6), degree, center, 0.55 * size, size, mixed, coincident=rng.random() < 0.3)
@@ -206,9 +211,17 @@ def case(ctx):
         if len(ob["curve"]) != len(curve):
             case.violate("%s has %d segments, the description %d" % (name, len(ob["curve"]), len(curve)), constructor=name)
             continue
-        if not rotations_equal(want_vertices, ob["vertices"], float(tol) if tol else 0.0) and not rotations_equal(want_vertices, ob["vertices"], 1e-12 * L):
+        want_v = want_vertices
+        if [len(sg) for sg in ob["curve"]] != [len(sg) for sg in curve]:
+            # the library degree-reduced a reducible segment (allowed: the curve is the same, see
+            # same_curve above): the list must then agree with the stored segments
+            case.count("constructors:degree-reduced-by-library")
+            want_v = []
+            for sg in ob["curve"]:
+                want_v += list(sg[:-1])
+        if not rotations_equal(want_v, ob["vertices"], float(tol) if tol else 0.0) and not rotations_equal(want_v, ob["vertices"], 1e-12 * L):
             case.violate("%s.vertices does not list every control point once, in order: %d listed, %d expected" % (
-                name, len(ob["vertices"]), len(want_vertices)), constructor=name)
+                name, len(ob["vertices"]), len(want_v)), constructor=name)
         for msg, det in P.junction_identity_violations(obj)[:1]:
             case.violate("%s: %s" % (name, msg), constructor=name)
         # box encloses the curve
